@@ -87,6 +87,13 @@ func (h *Hub) Restart(knobs map[string]int64) (*Hub, error) {
 }
 
 func (h *Hub) curie(s string) string {
+	if strings.HasPrefix(s, "http://") || strings.HasPrefix(s, "https://") {
+		// a full URI is compacted the way the HTTP layer does before storing
+		if c, err := h.Store.GetNamespacedIdentifier(s, nil); err == nil && c != "" {
+			return c
+		}
+		return s
+	}
 	if strings.HasPrefix(s, MkE) {
 		return h.PfxE + ":" + s[len(MkE):]
 	}
